@@ -371,9 +371,11 @@ def pressure_events(case, forsys, frame, t, o, vidx, cidx, cell_of_model, rng, r
         forsys.solve_pressure(when=0, method="lagrange_pressure")
         cells = frame.cells
         ps = [float(c.pressure) if c.pressure is not None else float("nan") for c in cells.values()]
-        fin = all(math.isfinite(v) and abs(v) < 1900 for v in ps)
+        fin = all(math.isfinite(v) for v in ps)
+        inr = fin and all(abs(v) < 50 for v in ps)          # fixed-point range of the oracle (sums over all cells)
         sev["finite"] = fin
-        sev["p"] = [fx(v) if fin else 0 for v in ps]        # in mesh cell order (dense index)
+        sev["in_range"] = inr
+        sev["p"] = [fx(v) if inr else 0 for v in ps]        # in mesh cell order (dense index)
         # analytic Young-Laplace pressures (model frame), in mesh cell order; 0/known flags
         pa, incons = eq.pressures(t)
         inv = {mesh_c: model_c for model_c, mesh_c in cell_of_model.items()}
@@ -400,8 +402,11 @@ def pressure_events(case, forsys, frame, t, o, vidx, cidx, cell_of_model, rng, r
                 be.tension = v
             forsys.build_pressure_matrix(when=0)
             forsys.solve_pressure(when=0, method="lagrange_pressure")
-            runs.append([fx(float(c.pressure)) for c in frame.cells.values()])
-        evs.append({"case": case, "ev": "PressureLin", "raised": "", "a": fx(a), "b": fx(b), "p1": runs[0], "p2": runs[1], "p3": runs[2]})
+            runs.append([float(c.pressure) for c in frame.cells.values()])
+        inr = all(math.isfinite(v) and abs(v) < 300 for r in runs for v in r)
+        runs = [[fx(v) if inr else 0 for v in r] for r in runs]
+        evs.append({"case": case, "ev": "PressureLin", "raised": "", "in_range": inr, "a": fx(a), "b": fx(b),
+                    "p1": runs[0], "p2": runs[1], "p3": runs[2]})
     except Exception as exc:
         import traceback
         evs.append({"case": case, "ev": "PressureLin", "raised": type(exc).__name__ + ": " + traceback.format_exc()[-300:]})
